@@ -649,6 +649,106 @@ func JOSEVariants(in JOSEInput) ([]JOSEVariant, error) {
 	if c := SelfSignedCertB64(in.Rogue.Priv); c != "" {
 		resign("key/signer+extra", "key/signer+rogue-x5c", in.Signer, alg0, func(h map[string]any) { h["x5c"] = []any{c} })
 	}
+	// 5b. two places to read the algorithm from. The embedded JWK's OWN optional members are a dimension: its `alg` may
+	// disagree with the protected `alg` header, and the signature may be made with either. (For tokens without a `jwk`
+	// header the signer's public key is added as one.) The statement: the signature must be made with the algorithm the
+	// PROTECTED header names.
+	{
+		canRun := func(a string) bool { _, err := SignRaw(a, in.Signer.Priv, []byte("probe")); return err == nil }
+		hdrAlgs := []string{alg0}
+		for _, a := range []string{"ES256", "ES384", "ES512", "PS256", "PS384", "PS512", "EdDSA"} {
+			if a != alg0 {
+				hdrAlgs = append(hdrAlgs, a)
+			}
+		}
+		jwkAlgs := []string{"", "ES256", "ES384", "ES512", "PS256", "PS384", "PS512", "RS256", "RS384", "RS512", "EdDSA", "none", "HS256"}
+		withJWKAlg := func(ja string) func(h map[string]any) {
+			return func(h map[string]any) {
+				j := PublicJWK(in.Signer.Public())
+				if ja != "" {
+					j["alg"] = ja
+				}
+				h["jwk"] = j
+			}
+		}
+		for _, ha := range hdrAlgs {
+			for _, ja := range jwkAlgs {
+				name := fmt.Sprintf("jwk-member/alg:header=%s,jwk=%s", ha, map[bool]string{true: "absent", false: ja}[ja == ""])
+				mod := withJWKAlg(ja)
+				// (i) signature made with the algorithm the HEADER names
+				if canRun(ha) && !(ha == alg0 && ja == "" && hadJWK) {
+					resign("jwk-member/alg", name+",made-with=header", in.Signer, ha, mod)
+				}
+				// (ii) signature made with the algorithm the JWK names
+				if ja == "" || ja == ha {
+					continue
+				}
+				p := hdrWith(func(h map[string]any) { h["alg"] = ha; mod(h) })
+				switch {
+				case ja == "none":
+					compact("jwk-member/alg", name+",made-with=jwk", p, "")
+				case ja == "HS256":
+					for _, e := range PublicKeyEncodings(in.Signer.Public(), in.Signer.Kid)[:3] {
+						compact("jwk-member/alg", name+",made-with=jwk:"+e.Name, p, b64u(MacRaw("HS256", e.B, []byte(p+"."+sp))))
+					}
+				case canRun(ja):
+					if sg := signSeg(p, in.Signer.Priv, ja); sg != "" {
+						compact("jwk-member/alg", name+",made-with=jwk", p, sg)
+					}
+				}
+			}
+		}
+		// other optional members of the embedded key, on a token signed correctly
+		for _, mm := range []struct {
+			n string
+			k string
+			v any
+		}{{"use=sig", "use", "sig"}, {"use=enc", "use", "enc"}, {"key_ops=verify", "key_ops", []any{"verify"}}, {"key_ops=sign", "key_ops", []any{"sign"}},
+			{"key_ops=encrypt", "key_ops", []any{"encrypt"}}, {"kid=other", "kid", "some-other-kid"}, {"kid=foreign", "kid", in.Foreign.Kid}, {"x5u", "x5u", "https://attacker.example/c.pem"}} {
+			mm := mm
+			resign("jwk-member/other", "jwk-member/"+mm.n, in.Signer, alg0, func(h map[string]any) {
+				j := PublicJWK(in.Signer.Public())
+				j[mm.k] = mm.v
+				h["jwk"] = j
+			})
+		}
+		// the unprotected header names another algorithm than the protected one; the signature is made with the unprotected one
+		for _, ua := range []string{"ES256", "ES384", "ES512", "PS256", "PS384", "PS512", "RS256", "RS512", "EdDSA", "none", "HS256"} {
+			if ua == alg0 {
+				continue
+			}
+			var sg string
+			switch {
+			case ua == "none":
+				sg = ""
+			case ua == "HS256":
+				sg = b64u(MacRaw("HS256", PublicKeyEncodings(in.Signer.Public(), in.Signer.Kid)[0].B, []byte(prot0+"."+sp)))
+			case canRun(ua):
+				sg = signSeg(prot0, in.Signer.Priv, ua)
+			default:
+				continue
+			}
+			for _, form := range []string{"flattened", "general"} {
+				pl := pay0
+				m := map[string]any{}
+				if !detached {
+					m["payload"] = pl
+				}
+				one := map[string]any{"protected": prot0, "signature": sg, "header": map[string]any{"alg": ua}}
+				if form == "flattened" {
+					for k, v := range one {
+						m[k] = v
+					}
+				} else {
+					m["signatures"] = []any{one}
+				}
+				b, _ := json.Marshal(m)
+				out = append(out, JOSEVariant{Class: "algsrc/unprotected", Name: "algsrc/unprotected:" + form + ":unprotected=" + ua + ",made-with=unprotected", Token: string(b), Form: form,
+					Payload: pay0, Sigs: []JOSESig{{Protected: prot0, Signature: sg, Unprotected: map[string]any{"alg": ua}}}})
+			}
+		}
+	}
+
 	// 6. embedded PRIVATE keys of every type
 	for _, fam := range AllFamilies {
 		pk, err := cachedKey(fam)
